@@ -3,7 +3,7 @@
     awkward_reduce_sum_int32_bool_64 / awkward_reduce_sum_int64_bool_64 (the loop of awkward_reduce_countnonzero) *)
 From Coq Require Import ZArith List Bool Lia ZifyBool.
 From AwkV Require Import Base.
-From AwkKernels Require Import Kernels KLemmas Proofs_C13 Proofs_C13b Proofs_C13c Proofs_C13d Proofs_C13d3.
+From AwkKernels Require Import Kernels KLemmas Proofs_C13 Proofs_C13b Proofs_C13c Proofs_C13d Proofs_C13d2 Proofs_C13d3.
 Import ListNotations.
 Open Scope Z_scope.
 
@@ -50,3 +50,18 @@ Proof. apply reduce_countnonzero_spec. Qed.
 Example reduce_sum_int64_bool_64_example :
   reduce_countnonzero [9; 9; 9] [0; 1; 1; 1] [0; 0; 0; 2] 4 3 = KOk [2; 0; 1].
 Proof. vm_compute. reflexivity. Qed.
+
+(* awkward_IndexedArray_getitem_nextcarry_outindex_mask: the same loop as awkward_IndexedArray_getitem_nextcarry_outindex *)
+Theorem IndexedArray_getitem_nextcarry_outindex_mask_spec tocarry toindex fromindex lenindex lencontent :
+  0 <= lenindex -> lenindex <= zlen fromindex -> lenindex <= zlen toindex ->
+  cnt_upto nonneg fromindex lenindex <= zlen tocarry ->
+  (forall i, 0 <= i < lenindex -> at_ fromindex i < lencontent) ->
+  exists tc ti,
+    IndexedArray_getitem_nextcarry_outindex TIdeal tocarry toindex fromindex lenindex lencontent = KOk (tc, ti) /\
+    zlen tc = zlen tocarry /\ zlen ti = zlen toindex /\
+    (forall q, 0 <= q -> at_ ti q = if q <? lenindex
+                                    then (if at_ fromindex q <? 0 then -1 else cnt_upto nonneg fromindex q)
+                                    else at_ toindex q) /\
+    (forall q, 0 <= q < lenindex -> 0 <= at_ fromindex q -> at_ tc (cnt_upto nonneg fromindex q) = at_ fromindex q) /\
+    (forall c, cnt_upto nonneg fromindex lenindex <= c -> at_ tc c = at_ tocarry c).
+Proof. apply IndexedArray_getitem_nextcarry_outindex_spec. Qed.
